@@ -768,6 +768,31 @@ pub fn run(cx: &mut Cx) {
                                 let _ = (d.get_distfile(p).is_some(), d.get_patchfile(p).is_some());
                                 let _ = EntryType::from(p);
                             }
+                            // verification entry points on paths that do not exist, are a
+                            // directory, or are an unrelated existing file: an error, not a panic
+                            let here = std::path::Path::new("/");
+                            let exe = std::env::current_exe().unwrap_or_else(|_| "/proc/self/exe".into());
+                            for p in probes.iter().take(6).map(|p| p.as_path()).chain([here, exe.as_path()]) {
+                                let _ = d.verify_size(p).map_err(|e| e.to_string());
+                                let _ = d.verify_checksum(p, Digest::SHA1).map_err(|e| e.to_string());
+                                let _ = d.verify_checksums(p).len();
+                                if p != exe.as_path() {
+                                    let _ = Distinfo::calculate_size(p).map_err(|e| e.to_string());
+                                    let _ = Distinfo::calculate_checksum(p, Digest::MD5).map_err(|e| e.to_string());
+                                }
+                            }
+                            for e in d.distfiles().iter().chain(d.patchfiles().iter()).take(3) {
+                                let _ = e.verify_size(here).map_err(|e| e.to_string());
+                                let _ = e.verify_checksum(here, Digest::BLAKE2s).map_err(|e| e.to_string());
+                                let _ = e.verify_checksums("/nonexistent/x").len();
+                            }
+                            let mut built = Distinfo::new();
+                            built.set_rcsid(&std::ffi::OsString::from("$NetBSD: x $"));
+                            for e in d.distfiles().iter().chain(d.patchfiles().iter()).take(4) {
+                                let sums = e.checksums.iter().map(|c| pkgsrc::distinfo::Checksum::new(c.digest, c.hash.clone())).collect();
+                                let _ = built.insert(pkgsrc::distinfo::Entry::new(&e.filename, &e.filepath, sums, e.size));
+                            }
+                            let _ = built.as_bytes();
                         }),
                         "scanindex" => {
                             let chunk = 1 + aux.below(64);
